@@ -662,3 +662,60 @@ func firstLine(s string) string {
 	}
 	return s
 }
+
+// ---------------------------------------------------------------- store readers without RW (child `c19-maprace`)
+
+func init() { subs["c19-maprace"] = c19MapRaceChild }
+
+// c19MapRaceChild: one goroutine inserts a prepared chain + confirm packets through the engine while
+// three goroutines call the store's PUBLIC, unlocked reader ChainDatabase.GetActDatabase (what every
+// account.NewManager(hash, db) of an RPC / tx-pool thread does) in a loop.  The unlocked map read of
+// UnConfirmBlocks against SetBlock/SetStableBlock's locked map writes is caught by the Go runtime's own
+// map check: `fatal error: concurrent map read and map write` kills the process (unrecoverable).
+func c19MapRaceChild(c *Ctx) {
+	h := &c19Hammer{res: &c19HResult{Rounds: c.N, Counts: map[string]int{}}, out: c.Out, rnd: c.Rnd, seen: map[string]bool{}}
+	h.flush()
+	for r := 0; r < c.N; r++ {
+		sc := h.build(r)
+		deputynode.SetSelfNodeKey(sc.w.DeputyKeys[0])
+		a := sc.w.NewNode(c19Deputies)
+		var stop int32
+		var rwg sync.WaitGroup
+		var reads int64
+		first := sc.chains[0][0].hash
+		for ri := 0; ri < 3; ri++ {
+			rwg.Add(1)
+			go func() {
+				defer rwg.Done()
+				for atomic.LoadInt32(&stop) == 0 {
+					func() {
+						defer func() { recover() }() // "the block not exist" once `first` is stable and pruned from the map
+						a.DB.GetActDatabase(first)
+						atomic.AddInt64(&reads, 1)
+					}()
+				}
+			}()
+		}
+		ci := 0
+		for _, rq := range sc.chains[0] {
+			c19Exec(a, rq, nil)
+			for ci < len(sc.confirms) && sc.confirms[ci].height <= rq.height {
+				c19Exec(a, sc.confirms[ci], nil)
+				ci++
+			}
+		}
+		for _, ch := range sc.chains[1:] {
+			for _, rq := range ch {
+				c19Exec(a, rq, nil)
+			}
+		}
+		atomic.StoreInt32(&stop, 1)
+		rwg.Wait()
+		h.count("maprace:GetActDatabase-calls", int(reads))
+		h.res.Completed++
+		a.Close()
+		h.flush()
+	}
+	h.res.Done = true
+	h.flush()
+}
